@@ -42,10 +42,10 @@ class RegPlan:
         return [i for i, r in self.role.items() if r in REGISTERED]
 
     def is_source(self, i):
-        return self.role[i] in ("psrc", "dsrc", "alias")
+        return self.role[i] in ("psrc", "dsrc", "alias", "gsrc")
 
 
-REGISTERED = ("stored", "psrc", "dsrc", "alias", "slit")
+REGISTERED = ("stored", "psrc", "dsrc", "alias", "slit", "gsrc")
 
 
 def gen_regplan(rng, n, family=None, cfg=None):
@@ -190,6 +190,18 @@ def gen_regplan(rng, n, family=None, cfg=None):
             else:
                 rp.role[nd.id] = "plain"
             sk2id[si] = nd.id
+            if rp.role[nd.id] == "stored" and rng.random() < cfg.get("p_gsrc", 0.1):
+                # "guarded" source: a source with its own store (refreshed from outside, like a pure source) whose ONLY predecessor is a stored
+                # node (plan.add_dependency(stored, source)): it may only be read after that node's value is in place. Nothing consumes it (a
+                # leaf, possibly requested as output): once the stored node has been rebuilt the source is older than its predecessor, i.e. out
+                # of date, but there is nothing a run could do about that - and nothing it may do because of it.
+                g = ir.add("source", scope=_scope(rng), fname="gsrc")
+                rp.role[g.id] = "gsrc"
+                rp.normalising[g.id] = rng.random() < p_norm
+                ir.deps.append((nd.id, g.id))
+                has_reg_anc[g.id] = True
+                if rng.random() < 0.6:
+                    ir.meta.setdefault("early_sources", set()).add(g.id)  # registered before its predecessor
     return rp
 
 
@@ -234,6 +246,8 @@ class Session:
                         n.node = self.registry.source(self.plan, st)
                 else:
                     n.node = self.registry.source(self.plan, st)
+                if rp.role[n.id] == "gsrc":
+                    st.set_content(irmod.Val(("src", n.id), 0))
         for n in ir.nodes:
             role = rp.role[n.id]
             if n.id in early:
@@ -271,7 +285,7 @@ class Session:
                         n.node = self.registry.source(self.plan, st)
                 else:
                     n.node = self.registry.source(self.plan, st)
-                if role == "psrc":
+                if role in ("psrc", "gsrc"):
                     st.set_content(irmod.Val(("src", n.id), 0))
             else:
                 args = [ir.nodes[a.a].node for a in n.args]
@@ -396,7 +410,7 @@ class Session:
         raw, seen = {}, {}
         for n in ir.nodes:
             role = rp.role[n.id]
-            if role == "psrc":
+            if role in ("psrc", "gsrc"):
                 v = self.stores[n.id].content
             elif role == "dsrc":
                 v = raw[rp.producer_of[n.id]]
@@ -594,7 +608,7 @@ class Session:
         elif result is not None:
             return f"run without output returned {result!r}"
         for i, st in self.stores.items():
-            if self.rp.role[i] == "psrc":
+            if self.rp.role[i] in ("psrc", "gsrc"):
                 continue
             if st.content is vstore.MISSING:
                 return f"store s{i} ({self.rp.role[i]}) is empty after a successful run"
@@ -607,7 +621,7 @@ class Session:
         raw, seen = self.scratch()
         ood = self.ood(fresh_tick)
         for i, st in self.stores.items():
-            if self.rp.role[i] == "psrc" or ood[i]:
+            if self.rp.role[i] in ("psrc", "gsrc") or ood[i]:
                 continue
             if not irmod.struct_eq(st.content, raw[i]):
                 return f"store s{i} would be treated as up to date but holds {irmod.canon(st.content)[:120]}; from-scratch value is {irmod.canon(raw[i])[:120]}"
